@@ -41,3 +41,13 @@ check("C01",
       "status, read-back) with the real robsd-step on generated histories with hostile values, and under strace ENOSPC injection at the flush.",
       "Trusted: Lean kernel; translator (field table); char-level lexer tied to the line/field model by correspondence only; qsort stability for equal ids; strace fault model.",
       "DESIGN.md#c01")
+
+check("C03",
+      "Lean 4 proof: decision table of step_next over arbitrary rows; invariant over every kill point of the sequential orchestrator, closed under kill/resume cycles; differential run of util.sh under bash and real canvas kill/resume",
+      "Proof: StepFile.stepNext transcribes util.sh step_next (decision table proved for every list of rows incl. id gaps and skipped tails). "
+      "OrchSeq models the sequential orchestrator write by write; Good(file, frontier) is proved to hold after EVERY prefix of the writes of a fresh "
+      "invocation (or nothing but skipped steps is recorded and resume fails) and of any resumed invocation, for any exit codes and any number of "
+      "kill/resume cycles; resume_runs shows a resume starts exactly the non-skipped steps from the frontier, never an earlier one. The models are "
+      "compared with the real step_next (bash, real robsd-step) on generated files and with real canvas runs SIGKILLed after a generated write and resumed.",
+      "Trusted: Lean kernel; bash -O lastpipe for ksh plus the shims of DESIGN 3.4; the slot abstraction of the step file is tied to the CSV by correspondence; sequential modes only.",
+      "DESIGN.md#c03")
